@@ -259,15 +259,15 @@ theorem chunk_length_le (data : Bytes) (r i : Nat) : (chunk data r i).length ≤
 theorem fragment_eq (v : Version) (its itr : Nat) (data : Bytes) (size : Nat)
     (h1 : its < 4294967296) (h2 : itr < 4294967296)
     (hs : hdrLen v + 1 < size) (hl : size < data.length)
-    (hn : data.length / (size - hdrLen v - 1) + 1 ≤ 65535) :
+    (hn : numFrags data.length (size - hdrLen v - 1) ≤ 65535) :
     fragment v its itr data size =
-      fragmentPieces v data (size - hdrLen v - 1) (data.length / (size - hdrLen v - 1) + 1) its itr
-        (data.length / (size - hdrLen v - 1) + 1) 0 := by
+      fragmentPieces v data (size - hdrLen v - 1) (numFrags data.length (size - hdrLen v - 1)) its itr
+        (numFrags data.length (size - hdrLen v - 1)) 0 := by
   unfold fragment
   simp only [fragmentPrefix_length v 1 1 its itr (by omega) (by omega) h1 h2, maxFragments]
   have c1 : ¬ (data.length ≤ size ∨ size = 0) := by omega
   have c2 : ¬ (size ≤ hdrLen v + 1) := by omega
-  have c3 : ¬ (data.length / (size - hdrLen v - 1) + 1 > 65535) := by omega
+  have c3 : ¬ (numFrags data.length (size - hdrLen v - 1) > 65535) := by omega
   simp only [c1, c2, c3, ↓reduceIte]
 
 /-- short messages are sent unfragmented -/
@@ -280,7 +280,7 @@ theorem fragment_unfragmented (v : Version) (its itr : Nat) (data : Bytes) (size
 theorem c14_bounded (v : Version) (its itr : Nat) (data : Bytes) (size : Nat)
     (h1 : its < 4294967296) (h2 : itr < 4294967296)
     (hs : hdrLen v + 1 < size)
-    (hn : data.length / (size - hdrLen v - 1) + 1 ≤ 65535) :
+    (hn : numFrags data.length (size - hdrLen v - 1) ≤ 65535) :
     ∀ p ∈ fragment v its itr data size, p.length ≤ size := by
   intro p hp
   by_cases hl : data.length ≤ size
@@ -289,7 +289,7 @@ theorem c14_bounded (v : Version) (its itr : Nat) (data : Bytes) (size : Nat)
   · rw [fragment_eq v its itr data size h1 h2 hs (by omega) hn] at hp
     obtain ⟨j, _, hj, rfl⟩ := fragmentPieces_mem _ _ _ _ _ _ _ _ _ hp
     have hc := chunk_length_le data (size - hdrLen v - 1) j
-    have hp := fragmentPrefix_length v j (data.length / (size - hdrLen v - 1) + 1) its itr
+    have hp := fragmentPrefix_length v j (numFrags data.length (size - hdrLen v - 1)) its itr
       (by omega) (by omega) h1 h2
     simp only [List.length_append, List.length_cons, List.length_nil, hp]
     omega
@@ -405,18 +405,29 @@ theorem foldl_pieces (v : Version) (its itr : Nat) (data : Bytes) (r num : Nat)
   congr 1; omega
 
 
-theorem mul_le_of_lt_div_succ (l r j : Nat) (h : j < l / r + 1) : j * r ≤ l :=
-  Nat.le_trans (Nat.mul_le_mul_right r (Nat.le_of_lt_succ h)) (Nat.div_mul_le_self l r)
+/-- every piece below the count starts strictly inside the data: no piece is empty -/
+theorem mul_lt_of_lt_numFrags (l r j : Nat) (hr : 0 < r) (h : j < numFrags l r) : j * r < l := by
+  have h1 : (j + 1) * r ≤ numFrags l r * r := Nat.mul_le_mul_right r h
+  have h2 : numFrags l r * r ≤ l + r - 1 := Nat.div_mul_le_self _ _
+  rw [Nat.succ_mul] at h1
+  omega
 
-theorem lt_div_succ_mul (l r : Nat) (hr : 0 < r) : l < (l / r + 1) * r := by
-  rw [Nat.mul_comm]; exact Nat.lt_mul_div_succ l hr
+theorem le_numFrags_mul (l r : Nat) (hr : 0 < r) : l ≤ numFrags l r * r := by
+  have := Nat.lt_mul_div_succ (l + r - 1) hr
+  unfold numFrags
+  rw [Nat.mul_succ, Nat.mul_comm] at this
+  omega
+
+theorem numFrags_pos (l r : Nat) (hr : 0 < r) (hl : 0 < l) : 0 < numFrags l r := by
+  unfold numFrags
+  exact Nat.div_pos (by omega) hr
 
 /-- (4) feeding the pieces of `fragment`, in order, to the receiver yields exactly `data`, and the
     context is finished after the last piece and not before -/
 theorem c14_lossless (v : Version) (its itr : Nat) (data : Bytes) (size : Nat)
     (h1 : its < 4294967296) (h2 : itr < 4294967296)
     (hs : hdrLen v + 1 < size) (hl : size < data.length)
-    (hn : data.length / (size - hdrLen v - 1) + 1 ≤ 65535)
+    (hn : numFrags data.length (size - hdrLen v - 1) ≤ 65535)
     (hd : (44 : UInt8) ∉ data) :
     ((fragment v its itr data size).foldl (reassembleStep v) FragCtx.empty).finished = true ∧
     ((fragment v its itr data size).foldl (reassembleStep v) FragCtx.empty).frag = data ∧
@@ -425,18 +436,18 @@ theorem c14_lossless (v : Version) (its itr : Nat) (data : Bytes) (size : Nat)
   rw [fragment_eq v its itr data size h1 h2 hs hl hn]
   generalize hr : size - hdrLen v - 1 = r at hn
   have hr0 : 0 < r := by omega
-  generalize hnum : data.length / r + 1 = num at hn
+  generalize hnum : numFrags data.length r = num at hn
   have hjr : ∀ j, j < num → j * r ≤ data.length := by
-    intro j hj; rw [← hnum] at hj; exact mul_le_of_lt_div_succ _ _ _ hj
-  have hbig : data.length < num * r := by rw [← hnum]; exact lt_div_succ_mul _ _ hr0
-  have hnpos : 0 < num := by rw [← hnum]; exact Nat.succ_pos _
+    intro j hj; rw [← hnum] at hj; exact Nat.le_of_lt (mul_lt_of_lt_numFrags _ _ _ hr0 hj)
+  have hbig : data.length ≤ num * r := by rw [← hnum]; exact le_numFrags_mul _ _ hr0
+  have hnpos : 0 < num := by rw [← hnum]; exact numFrags_pos _ _ hr0 (by omega)
   have hf := foldl_pieces v its itr data r num h1 h2 hn hd hjr FragCtx.empty
   refine ⟨?_, ?_, ?_⟩
   · rw [hf num hnpos (Nat.le_refl _)]
     simp [ctxAfter, FragCtx.finished, hnpos]
   · rw [hf num hnpos (Nat.le_refl _)]
     simp only [ctxAfter]
-    rw [Nat.min_eq_right (Nat.le_of_lt hbig), List.take_length]
+    rw [Nat.min_eq_right hbig, List.take_length]
   · intro k hk hkn
     rw [fragmentPieces_length] at hkn
     rw [fragmentPieces_take _ _ _ _ _ _ _ _ _ (Nat.le_of_lt hkn), hf k hk (Nat.le_of_lt hkn)]
@@ -447,8 +458,8 @@ theorem c14_lossless (v : Version) (its itr : Nat) (data : Bytes) (size : Nat)
 theorem fragment_length (v : Version) (its itr : Nat) (data : Bytes) (size : Nat)
     (h1 : its < 4294967296) (h2 : itr < 4294967296)
     (hs : hdrLen v + 1 < size) (hl : size < data.length)
-    (hn : data.length / (size - hdrLen v - 1) + 1 ≤ 65535) :
-    (fragment v its itr data size).length = data.length / (size - hdrLen v - 1) + 1 := by
+    (hn : numFrags data.length (size - hdrLen v - 1) ≤ 65535) :
+    (fragment v its itr data size).length = numFrags data.length (size - hdrLen v - 1) := by
   rw [fragment_eq v its itr data size h1 h2 hs hl hn, fragmentPieces_length]
 
 /-! ### the receiver on arbitrary arrival sequences -/
